@@ -5,10 +5,10 @@ set -e
 patch=$(realpath "$1"); shift
 wt=$(mktemp -d /tmp/trypatch.XXXXXX)
 git -C /repo worktree add -q --detach "$wt" HEAD
+trap 'git -C /repo worktree remove --force "$wt"' EXIT
 git -C "$wt" apply "$patch"
 rc=0
 for id in "$@"; do
   BLUETOE_REPO="$wt" VERIF_BUILD="$wt/_verif_build" python3 /verif/tools/check.py check "$id" || rc=$?
 done
-git -C /repo worktree remove --force "$wt"
 exit $rc
